@@ -450,3 +450,97 @@ def cleared_before_fill(prog, rep, rule, prefix, clear_fns, floor):
                "self.clear() precedes every other write to *self" if not early else
                "`%s` is written before (or without) the object being cleared" % early[0], b.loc())
     rep.floor(rule, n, floor, "functions under %s that refill *self after clear()" % prefix)
+
+
+# ------------------------------------------------------------------------------------------------------------
+# exact clause tables for validators: the relation under which a validator refuses its input
+from ..ir import IR as _IR, show as _show, strip_sites as _strip_sites
+from ..effects import strip_not as _strip_not
+
+FLIP = {"Lt": "Gt", "Le": "Ge", "Gt": "Lt", "Ge": "Le", "Eq": "Eq", "Ne": "Ne"}
+NEGATE = {"Lt": "Ge", "Le": "Gt", "Gt": "Le", "Ge": "Lt", "Eq": "Ne", "Ne": "Eq"}
+SYM = {"Lt": "<", "Le": "<=", "Gt": ">", "Ge": ">=", "Eq": "==", "Ne": "!="}
+
+
+def _is0(e):
+    return e[0] == "c" and e[1] == 0
+
+
+def _txt(e):
+    return _show(_strip_sites(e))
+
+
+def refusal_relations(body, ir, ok_variant="Ok"):
+    """[(A, op, B, line)]: the input is refused when `A op B`"""
+    oks = [bi for bi in sorted(body.live) for st in body.blocks[bi]["st"]
+           if st["k"] == "assign" and st["p"]["l"] == 0 and not st["p"].get("pr") and st["r"]["k"] == "agg" and st["r"].get("variant") == ok_variant]
+    out = []
+    for bi in sorted(body.live):
+        t = body.blocks[bi]["term"]
+        if t["k"] != "switch":
+            continue
+        e, neg = _strip_not(ir.term_operand(bi, t["o"]))
+        if e[0] != "bin" or e[1] not in NEGATE:
+            continue
+        # which raw value of the switch operand leads to a refusal (Ok(()) unreachable)?
+        raw_refuse = None
+        listed = set()
+        for v, tb in t["targets"]:
+            listed.add(bool(v))
+            if not any(o in body.reachable_from(tb) for o in oks):
+                raw_refuse = bool(v)
+        if raw_refuse is None and len(listed) == 1 and not any(o in body.reachable_from(t["otherwise"]) for o in oks):
+            raw_refuse = not next(iter(listed))
+        if raw_refuse is None:
+            continue
+        holds = raw_refuse if not neg else (not raw_refuse)
+        op = e[1] if holds else NEGATE[e[1]]
+        out.append((e[2], op, e[3], t.get("ln")))
+    return out
+
+
+def _orient(a, op, b, left_pred):
+    """put the operand satisfying left_pred on the left"""
+    if left_pred(a):
+        return a, op, b
+    if left_pred(b):
+        return b, FLIP[op], a
+    return None
+
+
+
+
+def exact_clauses(rep, rule, who, body, ir, table, floor=1, ok_variant="Ok"):
+    """`table`: [(clause text, left-operand predicate, right-operand predicate, refusing operator, count)].  Every clause must be
+    present among the comparisons on which `body` refuses (the side of the branch from which the Ok value is unreachable),
+    with exactly that operator after normalisation; a comparison of the right shape that refuses on another operator is named."""
+    rels = refusal_relations(body, ir, ok_variant)
+    rep.floor(rule, len(rels), floor, "comparisons on which %s refuses its input" % who)
+    for name, lp, rp, want, count in table:
+        found = []
+        wrong = []
+        for idx, (a, op, b_, ln) in enumerate(rels):
+            o = _orient(a, op, b_, lp)
+            if o is None or not rp(o[2]):
+                continue
+            if o[1] == want:
+                found.append((idx, ln))
+            else:
+                wrong.append((idx, o[1], ln))
+        claimed_elsewhere = set()
+        for name2, lp2, rp2, want2, c2 in table:
+            if name2 == name:
+                continue
+            for idx, (a, op, b_, ln) in enumerate(rels):
+                o = _orient(a, op, b_, lp2)
+                if o is not None and rp2(o[2]) and o[1] == want2:
+                    claimed_elsewhere.add(idx)
+        wrong = [w for w in wrong if w[0] not in claimed_elsewhere]
+        ok = len(found) >= count
+        rep.ob(rule, "%s | refuses when %s" % (who, name), ok,
+               "clause present %d time(s) with the refusing relation `%s`" % (len(found), SYM[want]) if ok else
+               "%s must refuse its input when %s; found %d such comparison(s) (need %d)%s" % (
+                   who, name, len(found), count,
+                   "; a comparison of that shape refuses on `%s` instead" % SYM[wrong[0][1]] if wrong else ""),
+               body.loc(found[0][1]) if found else (body.loc(wrong[0][2]) if wrong else body.loc()))
+    return rels
